@@ -97,7 +97,11 @@ func Run(p *Plan, ch simsync.Chooser) *Outcome {
 	}
 	var cache *simCache
 	evictions := 0
-	if p.CacheKind != CacheDefault {
+	if p.CacheKind == CacheMapDirect {
+		if !cacheTouched {
+			installDirectMap()
+		}
+	} else if p.CacheKind != CacheDefault {
 		cache = installCache(p.CacheKind, p.CacheCap, p.LossPm, p.MissPm, p.FlushPm)
 	} else {
 		if theCache != nil {
